@@ -726,11 +726,17 @@ impl<'a> Gen<'a> {
                     1 | 2 => cap,
                     _ => r.usize_below(cap + 1),
                 };
+                // besides plain characters, the caret pairs that escaped / coloured text legitimately contains and that
+                // are stable under encode/decode: escaped caret, colours (^8 also resets the codepage), escape letters
+                const PAIRS: [&str; 8] = ["^^", "^0", "^1", "^7", "^8", "^9", "^v", "^h"];
                 let mut s = String::new();
                 loop {
-                    let c = if r.chance(1, 3) { (0x20 + r.below(0x3e) as u8) as char } else { *r.pick(self.mixed_pool) };
                     let mut t = s.clone();
-                    t.push(c);
+                    match r.below(12) {
+                        0 => t.push_str(PAIRS[r.usize_below(PAIRS.len())]),
+                        1..=4 => t.push((0x20 + r.below(0x3e) as u8) as char),
+                        _ => t.push(*r.pick(self.mixed_pool)),
+                    }
                     if (self.enc_len)(&t) > target {
                         break;
                     }
